@@ -129,6 +129,28 @@ func c17Wear(c *mc.Ctx) {
 		res, err := v.ValidateContext(ctx, revocation.ValidateContextOptions{CertChain: chain})
 		return fmt.Sprintf("%s err=%v", renderResults(res), err), nil
 	}
+	// every call is made on a goroutine of its own and watched: a call that never comes back (whatever its context says) is an
+	// observation, not a hung worker
+	type watched struct {
+		out string
+		pan any
+	}
+	inner := call
+	hung := false
+	call = func(ctx context.Context, v revocation.Validator, cl *http.Client) (string, any) {
+		done := make(chan watched, 1)
+		go func() {
+			out, pan := inner(ctx, v, cl)
+			done <- watched{out, pan}
+		}()
+		select {
+		case w := <-done:
+			return w.out, w.pan
+		case <-time.After(c17WearDeadline + 30*time.Second):
+			hung = true
+			return "never returned", nil
+		}
+	}
 	// the reference: the same answers through objects nothing has happened to
 	refT := &netsim.Transport{Handler: tr.Handler}
 	rv, rcl := newObjects(refT, nil)
@@ -149,6 +171,12 @@ func c17Wear(c *mc.Ctx) {
 		if pan != nil {
 			resurfaced++
 		}
+		if hung {
+			c.Statef("after %d faulty calls", k)
+			c.Outcome("faulty-call:never-returned")
+			c.Fail("C17 a call that met a fault never returns", "call %d with fault %q did not return within %v, although its context had expired after %v", k+1, fault, c17WearDeadline+30*time.Second, c17WearDeadline)
+			return
+		}
 		if expired {
 			c.Statef("after %d faulty calls", k)
 			c.Outcome("faulty-call:still-busy-at-its-deadline")
@@ -163,17 +191,11 @@ func c17Wear(c *mc.Ctx) {
 		out string
 		pan any
 	}
-	done := make(chan outcome, 1)
 	ctx, cf := context.WithTimeout(context.Background(), c17WearDeadline)
 	defer cf()
-	go func() {
-		out, pan := call(ctx, v, cl)
-		done <- outcome{out, pan}
-	}()
 	var got outcome
-	select {
-	case got = <-done:
-	case <-time.After(c17WearDeadline + 30*time.Second):
+	got.out, got.pan = call(ctx, v, cl)
+	if hung {
 		c.Outcome("judged-call:never-returned")
 		c.Fail("C17 a call after earlier faulty calls never returns", "%d calls with fault %q through the same validator, client and fetcher, then a call with clean answers: no return within %v (its context expired after %v)", count, fault, c17WearDeadline+30*time.Second, c17WearDeadline)
 		return
